@@ -248,6 +248,18 @@ class World:
                 ret = proc.fail(exc, None)
             elif op == 'cancel':
                 ret = proc.future().cancel()
+            elif op == 'unask':
+                # whoever made the latest still pending pause / kill request withdraws it by cancelling the action it was
+                # handed (what asyncio.wait_for(proc.pause(), timeout) does when the timeout expires)
+                target = next((r for r in reversed(self.calls[:-1]) if r['op'] in ('pause', 'kill')
+                               and isinstance(r['obj'], asyncio.Future) and not r['obj'].done()), None)
+                rec['target'] = None if target is None else target['op']
+                ret = None
+                if target is not None:
+                    ret = target['obj'].cancel()
+                    for r in self.calls[:-1]:
+                        if r['obj'] is target['obj']:
+                            r['withdrawn'] = True
             elif op == 'addl':  # register one more (passive) listener, e.g. from inside a listener callback
                 ret = proc.add_process_listener(plumpy.ProcessListener())
             else:  # pragma: no cover
